@@ -5,7 +5,7 @@ open Util
    lengths of compressed writes are printed as ?), fd_calls / named_calls (outcomes and stored bytes under byte budgets). *)
 type st = { named : bool; comp : string; id0 : n; budget0 : n option; mutable calls : (string * n list * n * n option) list; mutable ended : bool }
 let g_w : st option ref = ref None
-let reset () = g_w := None
+let reset_w () = g_w := None
 let huge = n_of_dec "1000000000000000"
 let ext c = match c with "gzip" -> ".gz" | "xz" -> ".xz" | _ -> ""
 
@@ -41,7 +41,56 @@ let cmd_w (t : string list) =
   | ["end"] -> s.ended <- true; out "ok"
   | _ -> out "? bad writer command"
 
+(* XW group — the EXPORTER on top of the writer stack (drvw's 'X' commands): the model runs the exporter (coq/Exporter.v), derives the calls
+   its encoder makes on the output writer from the flushed chunks (coq/ExporterIO.v: run_wops / destroy_wops) and feeds them to the same
+   writer models as the W group; TRACE then prints the events the whole stack must produce.
+     XW new name|fd none|gzip|xz <id> <FilePreamble value>   XW qr <name hex> <n>   XW wb   XW rot <id> <export>   XW end *)
+type xst = { xnamed : bool; xcomp : string; xid0 : n; x0 : exporter; mutable xcur : exporter; mutable xops : xop list; mutable xids : n list; mutable xended : bool }
+let g_xw : xst option ref = ref None
+let mk_gqr (name : n list) (k : n) : val0 option list =
+  let base = n_of_dec "1600000000" in
+  List.init 39 (fun i -> match i with
+    | 0 -> Some (VL [VN (N.add base k); VN N0])
+    | 1 -> Some (VS (bytes_of_hex "0a000001"))
+    | 2 -> Some (VN (snd (N.div_eucl k (n_of_dec "65536"))))
+    | 23 -> Some (VS name)
+    | _ -> None)
+let cmd_xw (t : string list) =
+  match t with
+  | "new" :: kind :: comp :: id :: rest ->
+    let (pre, _) = G_val.parse_v rest in
+    let x = x_new pre in
+    g_w := None;
+    g_xw := Some { xnamed = (kind = "name"); xcomp = comp; xid0 = n_of_dec id; x0 = x; xcur = x; xops = []; xids = []; xended = false };
+    out "ok"
+  | _ ->
+  match !g_xw with None -> out "? no exporter" | Some s ->
+  let step o = let (x', r) = xstep s.xcur o in s.xcur <- x'; s.xops <- s.xops @ [o]; r in
+  match t with
+  | ["qr"; h; k] -> let r = step (XQr (mk_gqr (bytes_of_hex h) (n_of_dec k), None)) in out ("r " ^ dec_of_n r)
+  | ["wb"] -> let r = step XWb in out ("r " ^ dec_of_n r)
+  | "rot" :: id :: e :: _ -> s.xids <- s.xids @ [n_of_dec id]; let r = step (XRot (e <> "0")) in out ("r " ^ dec_of_n r)
+  | ["counts"] -> out (Printf.sprintf "c %s %s" (dec_of_n (item_count s.xcur.x_blk)) (dec_of_n s.xcur.x_written))
+  | ["end"] -> s.xended <- true; out "ok"
+  | _ -> out "? bad exporter command"
+
+let print_events named comp id0 ops ended =
+    let s = { named; comp; id0; budget0 = None; calls = []; ended } in
+    let ops = if comp = "none" then ops else czip () (fun () _ -> ((), [byte_tab.(63)])) (fun () -> [byte_tab.(63)]) () ops ended in
+    let evs = if named then named_trace id0 ops ended else fd_trace id0 ops ended in
+    List.iter (fun e -> match e with
+      | EOpen p -> out ("ev open " ^ path_str s p)
+      | EWrite (p, bs) -> let l = if comp = "none" then string_of_int (List.length bs) else "?" in out ("ev write " ^ path_str s p ^ " " ^ l ^ "/" ^ l)
+      | EClose p -> out ("ev close " ^ path_str s p)
+      | ERename n -> out ("ev rename " ^ path_str s (Part n) ^ " " ^ path_str s (Final n))) evs;
+    out "endtrace"
+
 let trace () =
+  match !g_xw with
+  | Some s ->
+    let ops = run_wops s.x0 s.xops s.xids @ (if s.xended then destroy_wops s.xcur else []) in
+    print_events s.xnamed s.xcomp s.xid0 ops s.xended
+  | None ->
   match !g_w with None -> out "endtrace" | Some s ->
     let ops = wops s in
     let ops = if s.comp = "none" then ops else czip () (fun () _ -> ((), [byte_tab.(63)])) (fun () -> [byte_tab.(63)]) () ops s.ended in
@@ -52,3 +101,5 @@ let trace () =
       | EClose p -> out ("ev close " ^ path_str s p)
       | ERename n -> out ("ev rename " ^ path_str s (Part n) ^ " " ^ path_str s (Final n))) evs;
     out "endtrace"
+
+let reset () = reset_w (); g_xw := None
